@@ -440,7 +440,7 @@ def u_overlay_enter_exit(c):
     c.prove("exit/LIFO-restores-previous", var.value is prev)
 
 
-@unit("BaseOverlay.exit-nonlifo", ["C05"], [O + ":BaseOverlay.__enter__", O + ":BaseOverlay.__exit__", O + ":HandlerCollection.plus"], mode="bounded",
+@unit("BaseOverlay.exit-nonlifo", ["C05", "C09"], [O + ":BaseOverlay.__enter__", O + ":BaseOverlay.__exit__", O + ":HandlerCollection.plus"], mode="bounded",
       bound="overlay with 1-2 handlers, 0-1 pairs installed before it, 1-2 pairs installed after it (all orders of exit)")
 def u_overlay_exit_nonlifo(c):
     """Exit in any order: when the current collection is not the one this overlay installed (another overlay was activated
@@ -462,6 +462,10 @@ def u_overlay_exit_nonlifo(c):
     pairs = lambda: [] if var.value is None else list(var.value.fields["handler_pairs"])
     ids = lambda ps: [id(p[1]) for p in ps]
     c.prove("enter/both-installed-in-order", ids(pairs()) == ([id(prev_pair[1])] if had else []) + [id(h) for h in own + later_h])
+    if c.choose(2, "derived"):
+        # the current collection was DERIVED from that one by a call frame (HandlerCollection.proceed keeps the non-immediate
+        # pairs but builds new (selector, accumulator) tuples), e.g. by a generator that is still suspended
+        var.value = mk_obj(it, O, "HandlerCollection", handler_pairs=[(p[0], p[1]) for p in pairs()])
     st, _ = run(it, it.getattr(ov1, "__exit__"), [None, None, None])  # the FIRST one leaves first
     c.prove("exit/no-raise", st == "ok")
     c.prove("exit/non-LIFO-removes-exactly-own-handlers", ids(pairs()) == ([id(prev_pair[1])] if had else []) + [id(h) for h in later_h])
